@@ -250,8 +250,12 @@ func drawShCfg(r *simkit.R, wc int) shCfg {
 		wcThreshold: []uint64{128 << 10, 300, 1200}[r.Intn(3)],
 		wcMax:       []uint64{1 << 30, 1 << 30, 6000}[r.Intn(3)],
 		rmBatch:     []int{100, 1, 2, 5}[r.Intn(4)],
-		gcInterval:  []time.Duration{10 * time.Second, time.Second, 3 * time.Second}[r.Intn(3)],
-		boltBatch:   []int{1000, 1, 2}[r.Intn(3)],
+		// GC periods are not multiples of the write-cache tick (1 s): goroutines that wake at the
+		// same simulated instant interleave by real I/O latency, which the simulator does not own
+		gcInterval: []time.Duration{10900 * time.Millisecond, 1300 * time.Millisecond, 3700 * time.Millisecond}[r.Intn(3)],
+		// bbolt batching is off (size 1): coalescing of concurrent Batch calls depends on real
+		// timing inside bbolt; transaction sharing is exercised in the META world instead
+		boltBatch: 1,
 		depth:       uint64(1 + r.Intn(3)),
 	}
 	switch wc {
@@ -310,7 +314,7 @@ func (w *shWorld) addr(id int) oid.Address { return w.u.Addr(w.u.Specs[id].Cnr, 
 // mkShard constructs a Shard over dir (not opened).
 func (w *shWorld) mkShard(dir string) *Shard {
 	fst := fstree.New(fstree.WithPath(filepath.Join(dir, "blob")), fstree.WithDepth(w.cfg.depth), fstree.WithPerm(0o700),
-		fstree.WithCombinedCountLimit(4), fstree.WithCombinedSizeThreshold(2048), fstree.WithCombinedWriteInterval(5*time.Millisecond), fstree.WithNoSync(true))
+		fstree.WithCombinedCountLimit(1), fstree.WithCombinedSizeThreshold(2048), fstree.WithCombinedWriteInterval(5*time.Millisecond), fstree.WithNoSync(true))
 	sp := &storProxy{Storage: fst, w: w}
 	s := New(
 		WithBlobstor(sp),
@@ -409,6 +413,7 @@ type shHooks struct {
 	done     func(*simkit.Task)
 	boundary func(key string)
 	verdict  func(key string) int
+	peek     func()
 	// extra actions offered at every step (name, weight>0, action on the scheduler goroutine;
 	// it must not call into the shard directly)
 	maxSteps int
@@ -434,6 +439,13 @@ func (w *shWorld) sched(h shHooks) string {
 		}
 		if w.r.Violated() {
 			return "violated"
+		}
+		if h.peek != nil && w.r.Bool(12) {
+			// lock-free observation of the quiescent state by the scheduler itself (reads only)
+			h.peek()
+			if w.r.Violated() {
+				return "violated"
+			}
 		}
 		if more && pend == nil {
 			pendName, pend = h.next()
@@ -476,6 +488,18 @@ func (w *shWorld) sched(h shHooks) string {
 				// actions that need write locks (mode change, close, reopen, resync): drain what is
 				// in flight, then run alone with gates passing through
 				f := pend
+				// what is in flight completes first and is reported before the action runs
+				if !w.k.Drain(5 * time.Minute) {
+					return "hang"
+				}
+				for _, t := range w.k.Collect() {
+					if h.done != nil {
+						h.done(t)
+					}
+				}
+				if w.r.Violated() {
+					return "violated"
+				}
 				if !w.k.RunExclusive(pendName, 5*time.Minute, func() { f(nil) }) {
 					return "hang"
 				}
